@@ -183,7 +183,12 @@ LongDocs12 == {Coll("List", lay, [j \in 1..20 |-> Lit(AnInt)]) : lay \in {"inlin
 Inject(s, j, t) == SubSeq(s, 1, j) \o <<t>> \o SubSeq(s, j + 1, Len(s))
 Injected == UNION {{Inject(Toks(d), j, t) : j \in 0..Len(Toks(d)), t \in {"#", ")"}} : d \in LongDocs12}
 Prefixes == UNION {{SubSeq(Toks(d), 1, j) : j \in 1..(Len(Toks(d)) - 1)} : d \in LongDocs12 \cup Reps}
-Gen12 == TokSeqs \cup {Toks(d) : d \in MixedDocs} \cup Injected \cup Prefixes
+\* complete documents around and beyond the default capacity (16) of the bounded collection
+\* kinds and of the token queue: the parser must size what it builds to what it read
+Full12 == {Coll(kind, lay, [j \in 1..n |-> Lit(AnInt)]) : kind \in ValueKinds, lay \in {"inline", "multi"}, n \in {16, 17, 40}} \cup
+          {Coll(kind, "multi", [j \in 1..n |-> Assoc(Lit(AnInt), Lit(AStr))]) : kind \in AssocKinds, n \in {17, 40}} \cup
+          {Coll("List", "inline", <<Coll(kind, "inline", [j \in 1..17 |-> Lit(AnInt)])>>) : kind \in {"Queue", "Stack"}}
+Gen12 == TokSeqs \cup {Toks(d) : d \in MixedDocs} \cup Injected \cup Prefixes \cup {Toks(d) : d \in Full12}
 
 ----------------------------------------------------------------------------
 (* Judging recorded runs                                                    *)
